@@ -270,6 +270,27 @@ pub fn drive_c09(a: &Args) {
             out.emit(Value::Object(m));
         }
     }
+    // the order on characters that a narrower comparison would confuse (same low 16 / low 8 bits) and at both
+    // ends of the alphabet
+    {
+        let cl = [0u32, 0x61, 0x161, 0x10061, 0x20061, 0xFFFF, 0x10000, MAX_CHAR - 1, MAX_CHAR];
+        let ws = all_strings(&cl, 2);
+        for (i, s) in ws.iter().enumerate() {
+            for (j, t) in ws.iter().enumerate() {
+                if !a.thorough() && (i + j) % 3 != (a.seed as usize) % 3 && s.len() + t.len() == 4 {
+                    continue;
+                }
+                let (ss, ts) = (mk(s), mk(t));
+                for (name, r) in [("lt", guarded(|| str_lt(&ss, &ts))), ("le", guarded(|| str_le(&ss, &ts)))] {
+                    let mut m = ev(name);
+                    m.insert("s".into(), json!(s));
+                    m.insert("t".into(), json!(t));
+                    bool_result(&mut m, r);
+                    out.emit(Value::Object(m));
+                }
+            }
+        }
+    }
     // long common prefixes (lengths around 8/16/32/64) followed by every short tail
     let tails: Vec<Vec<u32>> = vec![vec![], vec![0x30], vec![0x39], vec![0x30, 0x39], vec![0x39, 0x30], vec![MAX_CHAR]];
     for &len in &[7usize, 8, 15, 16, 17, 31, 32, 33, 64] {
@@ -296,6 +317,8 @@ pub fn drive_c09(a: &Args) {
         "4294967295", "4294967296", "4294967297", "5000000000", "9999999999", "10000000000", "21474836470",
         "21474836480", "99999999999", "123456789012", "999999999999", "18446744073709551616", "3000000000",
         "2147483650", "2147483639", "1999999999", "2999999999", "12a", "-1", "+1", " 1", "1 ", "٣", "1٣",
+        // look-alikes of ASCII digits: full-width, and characters with the same low 8 / 16 bits
+        "\u{FF11}", "1\u{FF10}", "\u{10031}", "1\u{10030}", "\u{131}", "\u{20039}9", "\u{1D7CF}",
     ]
     .iter()
     .map(|s| s.to_string())
